@@ -68,9 +68,13 @@ class KillGen(c03.Gen):
             for _ in range(40):
                 for what in ("write", "write", "splice"):
                     self.ops.append(("W %d %s" % (w, what), ["W %d %s" % (w, what)]))
-        for k in sorted(self.prepared):
-            for i in range(0, 48):
-                self.ops.append(("R flush %d %d" % (k, i), ["R flush %d %d" % (k, i)]))
+        if rng.random() < 0.5:
+            self.ops.append(("R flushall", ["R flushall"]))
+        else:
+            for k in sorted(self.prepared):
+                for i in range(0, 12):
+                    self.ops.append(("R flush %d %d" % (k, i), ["R flush %d %d" % (k, i)]))
+            self.ops.append(("R flushall", ["R flushall"]))
         for _ in range(60):
             self.ops.append(("R remaining", ["R remaining"]))
 
@@ -132,16 +136,16 @@ def expected_bounds(gt, k, killer, kill_at, mode):
             # every event up to the fatal one is an executed call; an EXIT logged right before dying has not
             # returned yet
             need = n if (n == 0 or ev[n - 1] % 2 == 0) else n - 1
-            return need, (len(ev) if mode == 6 else n)
+            return need, (len(ev) if mode in (6, 7) else n)
     # a return that was followed by another event has completed its hook: its records are in a buffer
     low = 0
     lim = n if (k != killer or mode == 6) else n
     for i in range(min(lim, len(ev)) - 1):
         if ev[i] % 2 == 1:
             low = i + 1
-    if mode == 6:
-        # tracing stops, the program goes on: later events are not recorded; nothing is known about how far
-        # the other threads were when the pipe was closed
+    if mode in (6, 7):
+        # tracing stops (finish trigger; exit() runs libmcount's atexit handler first), the program goes on:
+        # later events are not recorded; nothing is known about how far the other threads were at that moment
         return (low if k == killer else 0), len(ev)
     return low, len(ev)
 
@@ -224,7 +228,12 @@ def run(ctx):
     for ci, d in enumerate(res):
         g = d["gen"]
         hows[g.how] = hows.get(g.how, 0) + 1
-        flushes += sum(1 for (h, _), l in zip(g.ops, d["impl"]) if h.startswith("R flush") and l.startswith("ok"))
+        prev_shm = None
+        for (h, _), l in zip(g.ops, d["impl"]):
+            nshm = l.count(".", l.find("SHM=["), l.find("]", l.find("SHM=[")))
+            if h.startswith("R flush") and prev_shm is not None and nshm < prev_shm:
+                flushes += prev_shm - nshm
+            prev_shm = nshm
         for l in d["impl"]:
             distinct.add(hash(c03.norm_state(l)))
         mon = d["monitor"]
